@@ -547,8 +547,8 @@ func ruleProviderScan(p *Program, r *Result, fn *ssa.Function) {
 // prefix that parses is tested with IPNet.Contains — no other condition skips a prefix.
 func ruleContainsUnconditional(p *Program, r *Result) {
 	n := 0
-	for _, fn := range p.UFuncs() {
-		pk := fn.Pkg
+	for _, fn := range p.UUnits() {
+		pk := p.orig(fn).Pkg
 		if pk == nil || !(pk.Pkg.Path() == loaderPkg || strings.HasPrefix(pk.Pkg.Path(), configPkg+"/secret/")) {
 			continue
 		}
